@@ -3,12 +3,18 @@
 Every case is an edit history on a fresh hdl21.Module / hdl21.Bundle.  The implementation is observed after EVERY
 operation (harness/impl/c18.py); Coq (Corr/C18.v) replays the history through the specification (Spec/Namespace.v)
 and the model (Model/Namespace.v) and returns per case 0 | code + 10*(step+1).
+
+Strengthening round: WORLD histories (run_world_streams) - several Modules / Bundles sharing live objects that are created
+once and handed to containers again and again (same name, second name, another container, Module <-> Bundle), with
+`x.vis = ..` and `x.name = ..` in between; ALL containers are observed after every operation and Coq replays the history
+through Spec/C18World.v and Model/C18World.v (Corr/C18.v: chk_world). Coverage targets (W_TARGETS) are measured on what the
+implementation accepted and fail closed.
 """
-import json, itertools
+import json, itertools, time
 from . import core
 from .core import cz, cstr, clist, cbool
 
-IMPORTS = ("Require Import Hdl21.Base.PyInt Hdl21.Spec.Namespace Hdl21.Model.Namespace Hdl21.Corr.C03 Hdl21.Corr.C18.\n"
+IMPORTS = ("Require Import Hdl21.Base.PyInt Hdl21.Spec.Namespace Hdl21.Model.Namespace Hdl21.Spec.C18World Hdl21.Corr.C03 Hdl21.Corr.C18.\n"
            "From Coq Require Import String.\nOpen Scope string_scope.")
 
 KIND = dict(port="(KSignal true)", sig="(KSignal false)", inst="KInstance", arr="KInstArray", ibun="KInstBundle",
@@ -333,11 +339,449 @@ def gen_items(r, ctr, plain, special):
     return items
 
 
+
+# ==========================================================================================================
+# Strengthening round: WORLD histories - several containers sharing live objects (Spec/C18World.v)
+#   job = dict(world=True, ctrs=["module"|"bundle", ...], objs=[[kind, own_name], ...], ops=[...], names=[...], export=k|None)
+#   ops : ["set", c, name, x] | ["add", c, x, name|None] | ["vis", x, bool] | ["name", x, name|None] | ["del", c, name] | ["elab", c]
+# ==========================================================================================================
+def c_cid(job, c):
+    return f"({'CModule' if job['ctrs'][c] == 'module' else 'CBundle'}, {c})"
+
+
+def c_wop(job, op):
+    if op[0] == "set":
+        return f"(WSet {c_cid(job, op[1])} {cstr(op[2])} {op[3]})"
+    if op[0] == "add":
+        return f"(WAdd {c_cid(job, op[1])} {op[2]} {c_name_opt(op[3])})"
+    if op[0] == "vis":
+        return f"(WVis {op[1]} {cbool(op[2])})"
+    if op[0] == "name":
+        return f"(WName {op[1]} {c_name_opt(op[2])})"
+    if op[0] == "del":
+        return f"(WDel {c_cid(job, op[1])} {cstr(op[2])})"
+    return f"(WElab {c_cid(job, op[1])})"
+
+
+def c_world(job, out):
+    cids = clist(range(len(job["ctrs"])), lambda c: c_cid(job, c))
+    news = clist(list(enumerate(job["objs"])), lambda e: f"(WNew {e[0]} {KIND[e[1][0]]} {c_name_opt(e[1][1])})")
+    steps = [f"WIS {c_wop(job, op)} {cbool(s['acc'])} {clist(s['obs'], c_obs)}" for op, s in zip(job["ops"], out["steps"])]
+    ex = out.get("export")
+    if ex is None or job.get("export") is None:
+        exs = "None"
+    else:
+        exs = f"(Some ({job['export']}%nat, {c_export(ex)}))"
+    return f"({cids}, {clist(job['names'], cstr)}, {news}, {clist(steps)}, {exs})"
+
+
+def truncate_failed_welab(job, out):
+    for k, (op, s) in enumerate(zip(job["ops"], out["steps"])):
+        if op[0] == "elab" and not s["acc"]:
+            j = dict(job, ops=job["ops"][:k], export=None)
+            o = dict(out, steps=out["steps"][:k])
+            o.pop("export", None)
+            return j, o, True
+    return job, out, False
+
+
+def evaluate_world(tag, jobs, chunk=150):
+    outs = core.run_worker_sharded("c18", jobs, common=dict(kind="world"))
+    jj, oo, nfail = [], [], 0
+    for j, o in zip(jobs, outs):
+        j2, o2, cut = truncate_failed_welab(j, o)
+        nfail += cut
+        jj.append(j2)
+        oo.append(o2)
+    for j, o in zip(jj, oo):       # fail closed: the last operation of every history is observed, on every container
+        if o["steps"] and len(o["steps"][-1]["obs"]) != len(j["ctrs"]):
+            raise RuntimeError("world history without a final observation")
+    cases = [c_world(j, o) for j, o in zip(jj, oo)]
+    bad = core.coq_eval_cases("C18", tag, IMPORTS, "wcase", cases, "run_cases chk_world", chunk=chunk)
+    res = {i: (r % 10, r // 10 - 1) for i, r in bad}
+    return jj, oo, res, nfail
+
+
+# ---- coverage targets of the strengthening round, MEASURED on what the implementation accepted
+W_TARGETS = ["readd_same_name_after_vis_flip", "readd_same_name_unchanged", "taken_by_other_container_and_taken_back",
+             "taken_by_other_container_of_same_class", "same_object_second_name_in_one_container",
+             "object_shared_by_module_and_bundle", "vis_flip_of_held_signal", "readd_of_held_object_after_elaboration_rejected",
+             "rejected_add_then_accepted_add_of_same_object", "rename_of_held_object", "readd_instance_like_taken_back"]
+
+
+def world_targets(job, out):
+    """Shadow bookkeeping (coverage only; verdicts come from Coq): which target shapes this history really exercised."""
+    hit = set()
+    nc = len(job["ctrs"])
+    ns = [dict() for _ in range(nc)]                  # name -> (x, port flag it was sorted by)
+    elab = [False] * nc
+    ob = [dict(kind=k, port=(k == "port") if k in ("sig", "port") else None, name=nm, par={"module": None, "bundle": None})
+          for k, nm in job["objs"]]
+    rejected = set()
+    for op, st in zip(job["ops"], out["steps"]):
+        acc = st["acc"]
+        if op[0] in ("set", "add"):
+            c, x = (op[1], op[3]) if op[0] == "set" else (op[1], op[2])
+            o = ob[x]
+            if op[0] == "set":
+                n = None if (op[2].startswith("_") or op[2] == "name") else op[2]
+            else:
+                n = op[3] if op[3] is not None else o["name"]
+            cls = job["ctrs"][c]
+            holders = [m for m, e in ns[c].items() if e[0] == x]
+            if not acc:
+                if elab[c] and holders:
+                    hit.add("readd_of_held_object_after_elaboration_rejected")
+                if o["kind"] in HDL_M:
+                    rejected.add(x)
+                continue
+            if n is None:
+                continue
+            if x in rejected:
+                hit.add("rejected_add_then_accepted_add_of_same_object")
+                rejected.discard(x)
+            if n in holders:
+                stolen = o["par"][cls] != c
+                flipped = cls == "module" and o["port"] is not None and ns[c][n][1] != o["port"]
+                if flipped:
+                    hit.add("readd_same_name_after_vis_flip")
+                if stolen:
+                    hit.add("taken_by_other_container_and_taken_back")
+                    if o["kind"] not in ("sig", "port"):
+                        hit.add("readd_instance_like_taken_back")
+                if not flipped and not stolen and o["name"] == n:
+                    hit.add("readd_same_name_unchanged")
+            if any(m != n for m in holders):
+                hit.add("same_object_second_name_in_one_container")
+            for d in range(nc):
+                if d != c and any(e[0] == x for e in ns[d].values()):
+                    if job["ctrs"][d] == cls:
+                        hit.add("taken_by_other_container_of_same_class")
+                    else:
+                        hit.add("object_shared_by_module_and_bundle")
+            ns[c][n] = (x, o["port"])
+            o["name"] = n
+            o["par"][cls] = c
+        elif op[0] == "vis" and acc:
+            if ob[op[1]]["port"] != op[2] and any(e[0] == op[1] for d in ns for e in d.values()):
+                hit.add("vis_flip_of_held_signal")
+            ob[op[1]]["port"] = op[2]
+        elif op[0] == "name" and acc:
+            if any(e[0] == op[1] for d in ns for e in d.values()):
+                hit.add("rename_of_held_object")
+            ob[op[1]]["name"] = op[2]
+        elif op[0] == "elab" and acc:
+            elab[op[1]] = True
+    return hit
+
+
+def world_nontrivial(job):
+    """Non-trivial = some object is handed to containers at least twice, or is mutated (vis / name) at all."""
+    seen = set()
+    for op in job["ops"]:
+        if op[0] in ("vis", "name"):
+            return True
+        if op[0] in ("set", "add"):
+            x = op[3] if op[0] == "set" else op[2]
+            if x in seen:
+                return True
+            seen.add(x)
+    return False
+
+
+def py_repro_world(job):
+    mk = dict(port="h.Port({})", sig="h.Signal({})", inst="h.Instance(of=Leaf{})", arr="h.InstanceArray(of=Leaf, n=2{})",
+              ibun="h.Pair(of=Leaf{})", bun="h.BundleInstance(of=Sub{})", str="'Renamed'", none="None", int="7",
+              mod="h.Module(name='X')", gen="SomeGenerator", bdef="Sub", func="(lambda: None)")
+    def val(sp):
+        t = mk[sp[0]]
+        if "{}" not in t:
+            return t
+        if sp[1] is None:
+            return t.format("")
+        arg = f"name={sp[1]!r}"
+        return t.format(arg if t.endswith("({})") else ", " + arg)
+    lines = ["import hdl21 as h; from hdl21.signal import Visibility as V",
+             "Leaf = h.Module(name='Leaf'); Sub = h.Bundle(name='Sub'); Sub.x = h.Signal()"]
+    for k, c in enumerate(job["ctrs"]):
+        lines.append(f"c{k} = h.{'Module' if c == 'module' else 'Bundle'}(name='Edited{k}')")
+    for x, sp in enumerate(job["objs"]):
+        lines.append(f"o{x} = {val(sp)}")
+    for op in job["ops"]:
+        if op[0] == "set":
+            lines.append(f"setattr(c{op[1]}, {op[2]!r}, o{op[3]})")
+        elif op[0] == "add":
+            lines.append(f"c{op[1]}.add(o{op[2]}" + ("" if op[3] is None else f", name={op[3]!r}") + ")")
+        elif op[0] == "vis":
+            lines.append(f"o{op[1]}.vis = V.{'PORT' if op[2] else 'INTERNAL'}")
+        elif op[0] == "name":
+            lines.append(f"o{op[1]}.name = {op[2]!r}")
+        elif op[0] == "del":
+            lines.append(f"delattr(c{op[1]}, {op[2]!r})")
+        else:
+            lines.append(f"h.elaborate(c{op[1]})")
+    lines.append("print([(c.namespace, c.signals, getattr(c, 'ports', None)) for c in (" + ", ".join(f"c{k}" for k in range(len(job["ctrs"]))) + ",)])")
+    return "; ".join(lines)
+
+
+def shrink_world(job, rounds=4):
+    cur = job
+    for _ in range(rounds):
+        cands = [dict(cur, ops=cur["ops"][:k] + cur["ops"][k + 1:]) for k in range(len(cur["ops"]) - 1)]
+        if not cands:
+            break
+        jj, oo, res, _ = evaluate_world("wshrink", cands)
+        better = [(len(jj[i]["ops"]), i) for i, (c, st) in res.items() if c == 1]
+        if not better:
+            break
+        i = min(better)[1]
+        st = res[i][1]
+        cur = dict(jj[i], ops=jj[i]["ops"][:min(st, len(jj[i]["ops"]) - 1) + 1])
+    return cur
+
+
+def wkey(job):
+    return "C18:world:" + json.dumps([job["ctrs"], job["objs"], job["ops"]])
+
+
+def report_world(run, stream, jobs, outs, res, do_shrink=True, limit=2, keep_order=False):
+    v1 = sorted([i for i, (c, st) in res.items() if c == 1],
+                key=(lambda i: i) if keep_order else (lambda i: (res[i][1], len(json.dumps(jobs[i]["ops"])))))
+    v2 = sorted([i for i, (c, st) in res.items() if c == 2], key=lambda i: (res[i][1], len(json.dumps(jobs[i]["ops"]))))
+    seen = set()
+    for i in v1[:40]:
+        if len(seen) >= limit:
+            break
+        st = res[i][1]
+        job = dict(jobs[i], ops=jobs[i]["ops"][:st + 1], export=None) if st < len(jobs[i]["ops"]) else jobs[i]
+        job = {k: v for k, v in job.items() if k != "observe"}
+        if do_shrink and len(job["ops"]) > 1:
+            try:
+                job = shrink_world(job)
+            except Exception as e:
+                core.log(f"  (shrink failed: {e})")
+        key = wkey(job)
+        if key in seen:
+            continue
+        seen.add(key)
+        what = "final exported package disagrees with the namespace" if st >= len(jobs[i]["ops"]) else \
+            ("after its last operation some container is not the coherent map the edits denote, an object does not report "
+             "what the last add() made of it (view by current visibility, name, parent), or acceptance is wrong")
+        run.violation(key, f"containers {job['ctrs']} objects {json.dumps(job['objs'])} history {json.dumps(job['ops'])}: {what}",
+                      dict(kind="impl-violates-spec", stream=stream, case=job, failing_step=st,
+                           impl=outs[i]["steps"][min(st, len(outs[i]["steps"]) - 1)] if outs[i]["steps"] else None,
+                           export=outs[i].get("export"), reproducer=py_repro_world(job), failing_cases=len(v1)))
+    if v2 and not v1:
+        i = v2[0]
+        st = res[i][1]
+        run.violation(f"C18:{stream}:tie", f"world model and implementation differ at step {st} of {json.dumps(jobs[i]['ops'])} "
+                      f"(containers {jobs[i]['ctrs']}, objects {json.dumps(jobs[i]['objs'])}: acceptance, key order, or elaboration of a "
+                      "Module holding an orphan; the specification holds on every explored history)",
+                      dict(kind="correspondence-broken", stream=stream, case=jobs[i], failing_step=st,
+                           impl=outs[i]["steps"][min(st, len(outs[i]["steps"]) - 1)], reproducer=py_repro_world(jobs[i]),
+                           disagreeing_cases=len(v2), theorem="C18 correspondence stream " + stream), found_input=False)
+
+
+def mk_world(ctrs, objs, ops, names=None, export=0):
+    used = {"a", "b"}
+    for k, nm in objs:
+        if nm is not None:
+            used.add(nm)
+    for op in ops:
+        if op[0] in ("set", "del"):
+            used.add(op[2])
+        elif op[0] in ("add", "name") and op[-1] is not None:
+            used.add(op[-1])
+    return dict(world=True, ctrs=ctrs, objs=objs, ops=ops, names=sorted(used | set(names or [])), export=export)
+
+
+def world_corpus():
+    MM, MB, MMB = ["module", "module"], ["module", "bundle"], ["module", "module", "bundle"]
+    S, P, I, B = ["sig", None], ["port", None], ["inst", None], ["bun", None]
+    jobs = [
+        # seeded change C18r2-A, h1: promote to port, add again under the held name (and the way back)
+        mk_world(MM, [["sig", "d"]], [["add", 0, 0, None], ["vis", 0, True], ["add", 0, 0, None]]),
+        mk_world(MM, [["port", "d"]], [["add", 0, 0, None], ["vis", 0, False], ["add", 0, 0, None]]),
+        mk_world(MM, [S], [["set", 0, "a", 0], ["vis", 0, True], ["set", 0, "a", 0]]),
+        # h2 / h3: taken by another Module and taken back (signal, instance, bundle instance, array, pair)
+        mk_world(MM, [["sig", "a"]], [["add", 0, 0, None], ["add", 1, 0, None], ["add", 0, 0, None]]),
+        mk_world(MM, [I], [["add", 0, 0, "i"], ["add", 1, 0, None], ["add", 0, 0, None]]),
+        mk_world(MM, [B], [["set", 0, "a", 0], ["set", 1, "a", 0], ["set", 0, "a", 0]]),
+        mk_world(MM, [["arr", "a"]], [["add", 0, 0, None], ["add", 1, 0, None], ["add", 0, 0, None]]),
+        mk_world(MM, [["ibun", "a"]], [["add", 0, 0, None], ["add", 1, 0, None], ["add", 0, 0, None], ["elab", 0]]),
+        # re-adding a held object after elaboration is rejected like any addition
+        mk_world(MM, [["sig", "a"], S], [["add", 0, 0, None], ["elab", 0], ["add", 0, 0, None], ["set", 0, "a", 0], ["set", 0, "b", 1]]),
+        # a rejected addition leaves its argument alone (fix C18-4): the next add under a good name is accepted
+        mk_world(MM, [S], [["add", 0, 0, "ports"], ["add", 0, 0, "a"]]),
+        mk_world(MM, [S, S], [["set", 0, "a", 0], ["elab", 0], ["set", 0, "b", 0], ["set", 1, "a", 1]]),
+        mk_world(MB, [S], [["add", 1, 0, "signals"], ["add", 1, 0, "a"], ["add", 0, 0, None]]),
+        # one object under two names
+        mk_world(MM, [S], [["set", 0, "a", 0], ["set", 0, "b", 0]]),
+        mk_world(MM, [S, I], [["set", 0, "a", 0], ["set", 0, "b", 0], ["set", 0, "b", 1]]),
+        # between a Module and a Bundle
+        mk_world(MB, [P], [["set", 0, "a", 0], ["add", 1, 0, None], ["set", 1, "b", 0], ["add", 0, 0, None]]),
+        mk_world(MB, [B], [["set", 1, "a", 0], ["add", 0, 0, None], ["set", 0, "a", 0]]),
+        mk_world(MMB, [S, I], [["set", 0, "a", 0], ["set", 2, "a", 0], ["set", 1, "a", 0], ["set", 0, "a", 1], ["add", 0, 0, None]]),
+        # the same between two Bundles (`_parent_bundle`)
+        mk_world(["bundle", "bundle"], [S], [["set", 0, "a", 0], ["set", 1, "a", 0], ["set", 0, "a", 0]], export=None),
+        mk_world(["bundle", "bundle", "module"], [["bun", "q"]], [["add", 0, 0, None], ["add", 1, 0, None], ["add", 2, 0, None], ["add", 0, 0, None]], export=2),
+        # renames behind the container's back; anonymous again, then add(name=)
+        mk_world(MM, [S], [["set", 0, "a", 0], ["name", 0, None], ["add", 0, 0, "b"], ["name", 0, "c"], ["add", 0, 0, None]]),
+        # stealing makes the robbed Module an orphanage case: its elaboration is refused, the thief's is fine
+        mk_world(MM, [S], [["set", 0, "s", 0], ["set", 1, "y", 0], ["elab", 1], ["elab", 0]]),
+    ]
+    return jobs
+
+
+def world_exhaustive(ctrs, objs, maxlen, vis_values=(True, False)):
+    names = ["a", "b"]
+    ops = []
+    for c in range(len(ctrs)):
+        for x in range(len(objs)):
+            for n in names:
+                ops.append(["set", c, n, x])
+            ops.append(["add", c, x, None])
+    for x, (k, _) in enumerate(objs):
+        if k in ("sig", "port"):
+            ops += [["vis", x, v] for v in vis_values]
+    jobs = []
+    for L in range(1, maxlen + 1):
+        for seq in itertools.product(ops, repeat=L):
+            # every proper prefix is a case of its own: observe after the last operation only
+            jobs.append(dict(mk_world(ctrs, objs, [list(o) for o in seq], export=0), observe="last"))
+    return jobs, len(ops)
+
+
+def gen_world(r, maxlen, special_m, special_b):
+    ctrs = r.choice([["module", "module", "bundle"], ["module", "module"], ["module", "bundle"], ["module", "bundle", "bundle"]])
+    nobj = r.randint(2, 4)
+    plain = ["a", "b", "c"]
+    objs = []
+    for _ in range(nobj):
+        k = r.choice(["sig", "sig", "port", "port", "bun", "inst", "inst", "arr", "ibun"])
+        objs.append([k, r.choice([None, None, r.choice(plain)])])
+    if r.random() < 0.15:
+        objs.append([r.choice(["int", "mod", "str", "func"]), None])
+    # optimistic shadow (for biasing only): current name of every object, which objects are held somewhere
+    name = [o[1] for o in objs]
+    held = set()
+    n = r.randint(3, maxlen)
+    ops = []
+    elab_at = r.randint(2, n) if r.random() < 0.2 else None
+    sp = lambda c: special_m if ctrs[c] == "module" else special_b
+    for k in range(n):
+        c = r.randrange(len(ctrs))
+        if held and r.random() < 0.65:
+            x = r.choice(sorted(held))
+        else:
+            x = r.randrange(len(objs))
+        kind = objs[x][0]
+        u = r.random()
+        if elab_at == k:
+            ms = [i for i, cc in enumerate(ctrs) if cc == "module"]
+            ops.append(["elab", r.choice(ms)])
+        elif u < 0.30:
+            if name[x] is not None:
+                ops.append(["add", c, x, None])
+            else:
+                nm = r.choice(plain)
+                ops.append(["add", c, x, nm])
+                name[x] = nm
+            held.add(x)
+        elif u < 0.58:
+            nm = r.choice(plain)
+            ops.append(["set", c, nm, x])
+            name[x] = nm
+            held.add(x)
+        elif u < 0.72:
+            sigs = [i for i, o in enumerate(objs) if o[0] in ("sig", "port")]
+            if sigs:
+                xs = x if kind in ("sig", "port") else r.choice(sigs)
+                ops.append(["vis", xs, r.random() < 0.5])
+            else:
+                ops.append(["set", c, r.choice(plain), x])
+        elif u < 0.78:
+            if kind in HDL_M:
+                nm = r.choice([None, None, r.choice(plain)])
+                ops.append(["name", x, nm])
+                name[x] = nm
+            else:
+                ops.append(["set", c, r.choice(plain), x])
+        elif u < 0.82:
+            ops.append(["del", c, r.choice(plain + sp(c)[:2])])
+        elif u < 0.90:
+            s_ = r.choice(sp(c))
+            ops.append(r.choice([["set", c, s_, x], ["add", c, x, s_]]))
+        elif u < 0.95:
+            ops.append(["add", c, x, r.choice(plain)])            # often two names: rejected
+        else:
+            ops.append(["add", c, x, None])                       # often anonymous: rejected
+    export = r.choice([i for i, cc in enumerate(ctrs) if cc == "module"] + [None])
+    return mk_world(ctrs, objs, ops, export=export)
+
+
+def run_world_streams(run, quick, seed, pub_m, pub_b):
+    cover = {t: 0 for t in W_TARGETS}
+    total = 0
+
+    def do(stream, jobs, tag, chunk, shrink=True, **extra):
+        nonlocal total
+        t0 = time.time()
+        jj, oo, res, nf = evaluate_world(tag, jobs, chunk=chunk)
+        extra["wall_s"] = round(time.time() - t0, 1)
+        hits = {}
+        for j, o in zip(jj, oo):
+            for t in world_targets(j, o):
+                hits[t] = hits.get(t, 0) + 1
+                cover[t] += 1
+        nops = sum(len(j["ops"]) for j in jj)
+        nrej = sum(1 for o in oo for s_ in o["steps"] if not s_["acc"])
+        run.stream(stream, len(jobs), len({wkey(j) for j in jobs if world_nontrivial(j)}), operations=nops,
+                   rejected_operations=nrej, rejected_fraction=round(nrej / max(1, nops), 3), elaboration_failed=nf,
+                   export_failed=sum(1 for o in oo if "err" in (o.get("export") or {})), targets_met=hits,
+                   rule="non-trivial = some object is handed to containers at least twice or is mutated (vis / name) between edits; distinct by (containers, objects, operations)",
+                   **extra)
+        report_world(run, stream, jj, oo, res, do_shrink=shrink, limit=3 if not shrink else 2, keep_order=not shrink)
+        total += len(jobs)
+        return jj, oo
+
+    jobs = world_corpus()
+    jj, oo = do("world-corpus", jobs, "wcorpus", 40, shrink=False)
+    run.sample(dict(stream="world-corpus", case=jobs[0], impl_last_step=oo[0]["steps"][-1]["obs"][0]))
+    for tag, ctrs, objs in (("mm", ["module", "module"], [["sig", None], ["inst", None]]),
+                            ("mb", ["module", "bundle"], [["sig", None], ["bun", None]])):
+        maxlen = 3 if (quick or tag == "mb") else 4
+        # the Module + Bundle box of the quick tier leaves `x.vis = INTERNAL` out (objects start internal; the two-Module box has both)
+        vv = (True,) if (quick and tag == "mb") else (True, False)
+        jobs, nops = world_exhaustive(ctrs, objs, maxlen, vv)
+        do(f"world-exhaustive-{tag}", jobs, "wexh" + tag, 200, exhaustive=True, ops_per_step=nops, max_length=maxlen,
+           box=f"all sequences of length <= {maxlen} over containers {ctrs}, objects {objs}, names a,b x {{setattr, add(x), x.vis = {' / '.join('PORT' if v else 'INTERNAL' for v in vv)}}}")
+    n_rand = 1000 if quick else 12000
+    maxlen = 10 if quick else 20
+    sm = [n for n in ["ports", "signals", "name", "get", "_t"] if n in pub_m or n == "_t"]
+    sb = [n for n in ["signals", "name", "roles", "get", "_t"] if n in pub_b or n == "_t"]
+    jobs = [gen_world(core.rng(seed, "C18", "world-random", k), maxlen, sm, sb) for k in range(n_rand)]
+    jj, oo = do("world-random", jobs, "wrnd", 100, max_length=maxlen,
+                with_elaboration=sum(1 for j in jobs if any(op[0] == "elab" for op in j["ops"])))
+    run.sample(dict(stream="world-random", case=jobs[1], accepted=[s_["acc"] for s_ in oo[1]["steps"]]))
+    run.coverage["strengthening_targets"] = cover
+    for t, cnt in cover.items():
+        if cnt == 0:
+            run.violation(f"C18:coverage:{t}", f"generator coverage target missed: no accepted history with {t}",
+                          dict(kind="coverage"), found_input=False)
+    return total
+
 # ------------------------------------------------------------------------------------------ run
 def run(run, tier, seed, replay=None):
     quick = tier == "quick"
     if replay is not None:
         job = replay.get("case")
+        if isinstance(job, dict) and job.get("world"):
+            jj, oo, res, _ = evaluate_world("replay", [job])
+            report_world(run, "replay", jj, oo, res, do_shrink=False)
+            run.stream("replay", 1, 1 if world_nontrivial(job) else 0, rule="the replayed world history")
+            run.sample(dict(stream="replay", case=job, verdict=res.get(0, (0, -1))))
+            return
         jj, oo, res, _ = evaluate("replay", [job])
         report(run, "replay", jj, oo, res, do_shrink=False)
         run.stream("replay", 1, 1 if nontrivial(job) else 0, rule="the replayed history")
@@ -452,4 +896,6 @@ def run(run, tier, seed, replay=None):
                       dict(kind="correspondence-broken", stream="class-style", case=cjobs[i], impl=couts[i],
                            theorem="C18 correspondence stream class-style", disagreeing_cases=len(v2)), found_input=False)
     run.sample(dict(stream="class-style", case=cjobs[1], impl=couts[1]["cls"].get("obs", {}).get("ns")))
+    # ---------------------------------------------------------------- world histories: containers sharing live objects
+    total_traces += run_world_streams(run, quick, seed, pub_m, pub_b)
     run.coverage["traces_validated_against_impl"] = total_traces + len(cjobs)
